@@ -144,21 +144,21 @@ Definition exec (s : srv) (now : Z) (m : meth) : srv * Z :=
 
 (* ---- what the server does by itself ---- *)
 (* one expiry: the first queue (declaration order) whose HEAD has outlived its TTL *)
-Fixpoint find_expired (now : Z) (qs : list (qkey * list amsg)) : option (qkey * amsg * list amsg) :=
-  match qs with
+Fixpoint find_expired (s : srv) (now : Z) (ks : list qkey) : option (qkey * amsg * list amsg) :=
+  match ks with
   | [] => None
-  | (k, l) :: r =>
-      match l with
+  | k :: r =>
+      match ready s k with
       | m :: rest => match a_expire m with
-                     | Some e => if e <=? now then Some (k, m, rest) else find_expired now r
-                     | None => find_expired now r
+                     | Some e => if e <=? now then Some (k, m, rest) else find_expired s now r
+                     | None => find_expired s now r
                      end
-      | [] => find_expired now r
+      | [] => find_expired s now r
       end
   end.
 
 Definition expire_one (s : srv) (now : Z) : option srv :=
-  match find_expired now (queues s) with
+  match find_expired s now (map fst (queues s)) with
   | Some (k, m, rest) => Some (dead_letter (set_ready s k rest) k m)
   | None => None
   end.
